@@ -46,7 +46,8 @@ def ref_filter(fb, W, H, fmt, tc, w2, h2):
 
 def ref_filter_scaled(fb, W, H, fmt, tc, w2, h2):
     """the reduced image: each pixel = per-channel floor average of its areaX x areaY block (top-left pixel
-    for colour maps), blocks at (X*areaX, Y*areaY), areaX = W // w2"""
+    for colour maps), areaX = W // w2, the block of pixel X starting at floor(X*W/w2) - the source pixels that
+    rfbScaledCorrection maps onto X (for factors dividing the size this is X*areaX)"""
     bpp, rm, gm, bm, rs, gs, bs = fmt
     if w2 == 0 or h2 == 0:
         return [[] for _ in range(h2)]
@@ -54,14 +55,16 @@ def ref_filter_scaled(fb, W, H, fmt, tc, w2, h2):
     out = []
     for Y in range(h2):
         row = []
+        sy = (Y * H) // h2            # the block that maps onto pixel (X, Y) starts at floor(X*W/w2), floor(Y*H/h2)
         for X in range(w2):
+            sx = (X * W) // w2
             if not tc:
-                row.append(fb[Y * ay][X * ax])
+                row.append(fb[sy][sx])
                 continue
             r = g = b = 0
             for v in range(ay):
                 for u in range(ax):
-                    p = fb[Y * ay + v][X * ax + u]
+                    p = fb[sy + v][sx + u]
                     r += (p >> rs) & rm
                     g += (p >> gs) & gm
                     b += (p >> bs) & bm
@@ -246,7 +249,7 @@ def parse_coq_lists(txt):
 CHUNK = 2500
 EVAL = {"S": "Eval vm_compute in (map (fun t => match t with [a; b; c] => show_oz (scaleF a b c) | _ => [] end) %s).\n",
         "C": "Eval vm_compute in (map (fun t => match t with [a; b; c; d; e; f; g; h] => show_o4 (correctionF a b c d e f g h) | _ => [] end) %s).\n",
-        "G": "Eval vm_compute in (map (fun t => match t with [a; b; c; d; e; f; g; h] => show_ol (upd_geomF a b c d e f g h) | _ => [] end) %s).\n"}
+        "G": "Eval vm_compute in (map (fun t => match t with [a; b; c; d; e; f; g; h] => show_ol (upd_geomF GRID a b c d e f g h) | _ => [] end) %s).\n"}
 
 
 def hash_entries(entries):
@@ -269,7 +272,7 @@ def sweep_hash_of_impl(case, impl_lines):
     return hash_entries(ent)
 
 
-def float_table(ctx, queries, path, sweeps=()):
+def float_table(ctx, queries, path, sweeps=(), gridfix=False):
     """evaluate ScaleF on all queries with a single coqc run (lists cut into chunks so that the parser's stack
     suffices); write the table file for the OCaml driver.  sweeps: (W, n) pairs -> dict of ScaleF.sweep_hash"""
     order = []        # (kind, [keys]) per Eval, in file order
@@ -280,7 +283,7 @@ def float_table(ctx, queries, path, sweeps=()):
         for o in range(0, len(items), CHUNK):
             part = items[o:o + CHUNK]
             order.append(part)
-            src += EVAL[kk] % ("[" + "; ".join("[" + "; ".join("(%s)" % t for t in it.split()[1:]) + "]" for it in part) + "]")
+            src += EVAL[kk].replace("GRID", "true" if gridfix else "false") % ("[" + "; ".join("[" + "; ".join("(%s)" % t for t in it.split()[1:]) + "]" for it in part) + "]")
     sweeps = list(sweeps)
     for o in range(0, len(sweeps), CHUNK):
         src += "Eval vm_compute in (map sweep_hash [%s]).\n" % "; ".join("(%d, %d)" % pr for pr in sweeps[o:o + CHUNK])
@@ -400,20 +403,21 @@ def run_impl(cexe, cases):
 
 
 REPAIRS = ["zerofix"]      # /repo commit 8e7b6f1 (was notes/fix_C17_1.diff)
+PROPOSED = ["gridfix"]     # notes/fix_C17_2.diff (F17b), not in the tree
 
 
 def is_sweep(c):
     return c[0].split()[2:3] == ["sweep"]
 
 
-def run_model(ctx, mexe, cases, zerofix=False):
+def run_model(ctx, mexe, cases, zerofix=False, gridfix=False):
     sweeps = [tuple(int(t) for t in c[0].split()[3:5]) for c in cases if is_sweep(c)]
     script = script_of([c for c in cases if not is_sweep(c)])
     rc, qo, qe = vlib.run_driver([mexe, "collect", "-"] + (["zerofix"] if zerofix else []), script, timeout=3000,
                                  unlimited_stack=True)
     queries = sorted(set(l[2:] for l in qo.split("\n") if l.startswith("Q ")))
     tpath = os.path.join(ctx.scratch, "float_table.txt")
-    table = float_table(ctx, queries, tpath, sweeps)
+    table = float_table(ctx, queries, tpath, sweeps, gridfix)
     rc, mo, me = vlib.run_driver([mexe, "run", tpath] + (["zerofix"] if zerofix else []), script, timeout=3000,
                                  unlimited_stack=True)
     return mo, me, table
@@ -607,12 +611,18 @@ def check(ctx):
         return out
     mm0 = mismatches_of(mby_head)
     mismatches, chosen = mm0, list(REPAIRS)
-    if mm0:     # would the model of the code before the repair (zero width accepted) agree?  -> regression of 8e7b6f1
-        mo1, _, t1 = run_model(ctx, mexe, cases, zerofix=False)
-        mm1 = mismatches_of({h: ls for (h, ls) in vlib.split_cases(mo1)})
-        if len(mm1) < len(mismatches):
-            mismatches, chosen = mm1, []
-        run_model(ctx, mexe, cases, zerofix=True)
+    if mm0:
+        # (a) does the tree contain the proposed block-grid repair (notes/fix_C17_2.diff)?
+        # (b) would the model of the code before 8e7b6f1 (zero width accepted) agree?  -> regression
+        for trial in (REPAIRS + PROPOSED, PROPOSED, []):
+            mo1, _, t1 = run_model(ctx, mexe, cases, zerofix="zerofix" in trial, gridfix="gridfix" in trial)
+            mm1 = mismatches_of({h: ls for (h, ls) in vlib.split_cases(mo1)})
+            if len(mm1) < len(mismatches):
+                mismatches, chosen = mm1, list(trial)
+            if not mm1:
+                break
+    if chosen == REPAIRS + PROPOSED:
+        mm0 = mismatches           # the proposal has been applied to the tree: that model is the reference
     variant = ",".join(chosen) or "none"
     pybad = py_float_check(table)
     nops = sum(len(c) - 1 for c in cases)
@@ -694,6 +704,9 @@ def replay(ctx, path):
     cexe, mexe, _ = build(ctx)
     r, co, ce, cr = run_impl(cexe, [lines])
     mo, me, _ = run_model(ctx, mexe, [lines], zerofix=True)
+    mo2, _, _ = run_model(ctx, mexe, [lines], zerofix=True, gridfix=True)
+    if vlib.split_cases(co) and vlib.split_cases(mo2) and comparable(vlib.split_cases(co)[0][1]) == comparable(vlib.split_cases(mo2)[0][1]):
+        mo = mo2
     print("implementation:\n" + co + ce[-800:] + ("crash: %s\n" % (cr,) if cr else "") + "model:\n" + mo)
     cs = vlib.split_cases(co)
     es = oracle_case(lines, cs[0][1] if cs else [], cr.get(lines[0]) or cr.get("*"))
